@@ -119,10 +119,11 @@ def e_datum(ctx, n):
             for f in ("equations", "dof", "defect"):
                 if r[f] != ref[f]:
                     dd.append("%s %s vs %s" % (f, r[f], ref[f]))
-            # the two runs stop their linearisation loops at different points when the iteration counts differ: v'Pv agrees to the
-            # stop tolerance of that loop only (nonlinear datum invariance holds at convergence)
-            stol = 3e-5 if (r.get("iterations") or 0) != (ref.get("iterations") or 0) else 3e-6
-            if abs(r["ssq"] - ref["ssq"]) > stol * max(1.0, ref["ssq"]):
+            # gama stops its linearisation loop when linear and non-linear adjusted observations agree to 0.0005 mm in position
+            # (TestLinearization, max_dif): each residual is known to dv <= 0.0005 mm / sigma_pos, hence v'Pv to about
+            # 2 sqrt(v'Pv m) dv; sigma_pos >= 1 mm for everything the generator produces
+            stol = 3e-6 * max(1.0, ref["ssq"]) + 2 * math.sqrt(max(ref["ssq"], 0.0) * max(1, ref["equations"])) * 5e-4 * 2
+            if abs(r["ssq"] - ref["ssq"]) > stol:
                 dd.append("sum of squares %.8g vs %.8g" % (r["ssq"], ref["ssq"]))
             if len(r["observations"]) == len(ref["observations"]):
                 for i, (o1, o2) in enumerate(zip(r["observations"], ref["observations"])):
